@@ -10,10 +10,12 @@ namespace CM
 
 /-- well-formed graphs: parents precede children, used inputs are leaves, edges are cache-free with wrappers around
 simple edges (what `TreeNode.from_edges`, `normalize_bag` rule 1a and the repaired decorators guarantee) -/
-structure GraphOK (g : Graph) : Prop where
+structure GraphBase (g : Graph) : Prop where
   topo : ∀ (n : Nat) (nd : Node), g.nodes[n]? = some nd → ∀ p ∈ nd.parents, p < n
-  wf : ∀ (n : Nat) (nd : Node) (e : EdgeK), g.nodes[n]? = some nd → nd.edge = some e → e.wf = true
   inputsLeaves : ∀ (n : Nat) (nd : Node), g.nodes[n]? = some nd → g.usedInputs.contains n = true → nd.edge = none
+
+structure GraphOK (g : Graph) : Prop extends GraphBase g where
+  wf : ∀ (n : Nat) (nd : Node) (e : EdgeK), g.nodes[n]? = some nd → nd.edge = some e → e.wf = true
 
 /-- the pure handlers of node `n`: its parents' denotations, its own hash, uninterpreted calls -/
 def ctxOf (g : Graph) (d : DenCfg) (n : Nat) : Ctx :=
@@ -33,7 +35,7 @@ theorem node_of_edge (g : Graph) (n : Nat) (e : EdgeK) (h : (g.node n).edge = so
   | some nd => simp
 
 /-- the denotation of an inner node, unfolded against `ctxOf` -/
-theorem den_inner (g : Graph) (d : DenCfg) (ok : GraphOK g) (n : Nat) (e : EdgeK) (he : (g.node n).edge = some e) :
+theorem den_inner (g : Graph) (d : DenCfg) (ok : GraphBase g) (n : Nat) (e : EdgeK) (he : (g.node n).edge = some e) :
     (den g d n).h = (interp { ctxOf g d n with cur := .error .internal } (e.hashProg (g.parents n).length)).bind Item.asHout ∧
     (den g d n).v = (interp (ctxOf g d n) (e.evalProg (g.parents n).length)).bind Item.asVal := by
   have hnode := node_of_edge g n e he
@@ -195,7 +197,7 @@ theorem big_sound (g : Graph) (d : DenCfg) (ok : GraphOK g) : ∀ (f : Nat) (t :
             obtain ⟨hs1, hint⟩ := ih (.prog n (e.hashProg (g.parents n).length)) _ _ _ hs (hashProg_noEff e _ hwf) hp
             simp only [Post] at hint
             -- the hash program never asks for the node's own hash
-            have hden := (den_inner g d ok n e he).1
+            have hden := (den_inner g d ok.toGraphBase n e he).1
             rw [interp_noCur (ctxOf g d n) _ _ (hashProg_noCur e _ hwf), hint] at hden
             cases hy : m1.hashes.memo n with
             | some _ => simp [hy] at hb
@@ -241,7 +243,7 @@ theorem big_sound (g : Graph) (d : DenCfg) (ok : GraphOK g) : ∀ (f : Nat) (t :
             cases x1 with
             | val v =>
               simp only at hb
-              have hden := (den_inner g d ok n e he).2
+              have hden := (den_inner g d ok.toGraphBase n e he).2
               rw [hint] at hden
               cases hy : m1.cache.memo n with
               | some _ => simp [hy] at hb
